@@ -14,7 +14,7 @@ for d in "$VERIF"/seeded-equivalent/*/; do
   if (cd "$SCR/repo" && CARGO_TARGET_DIR="${SEED_TARGET:-/tmp/pkgsim-seed-target}" cargo test --workspace --no-fail-fast --offline >"$SCR/suite.log" 2>&1); then suite=pass; else suite=FAIL; bad=1; fi
   rm -rf "$SCR"
   line="$name suite=$suite"
-  for P in $prop C17 ${EXTRA_PROPS:-}; do
+  extra=""; [ "$prop" = C07 ] && extra="C09"; for P in $prop C17 $extra ${EXTRA_PROPS:-}; do
     out="$(MUT_TARGET="${MUT_TARGET:-/tmp/pkgsim-mut-target}" "$VERIF/tools/mutant.sh" "$d/patch.diff" "$P" 2>&1)"; rc=$?
     line="$line $P=rc$rc"
     if [ $rc -ne 0 ]; then bad=1; echo "$out" | grep -E "^violation|harness|error" | cut -c1-300 | head -3; fi
